@@ -25,6 +25,7 @@ package vm
 //@   opt prune-depth=40
 //@   let s = evm.am.GetAccount(caller.GetAddress()); r = evm.am.GetAccount(addr)
 //@   assert @call NewContract#0: val(amount) >= 0
+//@   assert @call NewContract#0: gh("frozen", pairkey(issuerAcc, senderEquity.AssetCode)) == 0
 //@   assert @call NewContract#0: types.equityOf(s, assetId) >= 0
 //@   assert @call NewContract#0: !destroyAsset && s != r ==> types.equityOf(s, assetId) == old(types.equityOf(s, assetId)) - val(amount)
 //@   assert @call NewContract#0: !destroyAsset && s != r && old(types.hasEquity(r, assetId)) ==> types.equityOf(r, assetId) == old(types.equityOf(r, assetId)) + val(amount)
